@@ -229,6 +229,12 @@ theorem stepApi_noGain {st st' : St} {c : Api} (h : stepApi st c = some st') : N
       exact (ng_freezeCaller st.mem arr).trans (ng_setAdd hm2)
     · rename_i m2 hm2
       exact ng_setAdd hm2
+  | psAddAllSteps g p hs =>
+    simp only [stepApi] at h
+    opt_cases h
+    all_goals first
+      | exact NoGain.refl _
+      | (rename_i m2 hm2; exact (ng_freezeCaller st.mem _).trans (ng_setAddAll _ _ _ _ hm2))
   | walkNext w =>
     simp only [stepApi] at h
     opt_cases h
